@@ -655,3 +655,354 @@ Example ex_export_table :
                                     Image.Example.ex_cfg Image.Example.ex_inp = Res.Ok w /\
             ImageProofs.image_fits w = true.
 Proof. exact ex_export_hyps_l. Qed.
+
+(* ================================================================================================ *)
+(* From the sort file to the data offsets: one end-to-end layout theorem                            *)
+(* ================================================================================================ *)
+(* The glue between the two halves above.  Model (C17/OrderModel.v): bin/gensquashfs/src/mkfs.c main() between
+   fstree_post_process and sqfs_writer_finish -
+     fs->files as fstree_post_process / file_list_dfs built it  = [pp_files pp] of the C11 model (nodes named by their
+                                                                  path components; default order),
+     fstree_sort_files on THAT list                             = [sort_stage]: SortModel.sort_files on the strings
+                                                                  fstree_get_path returns ([get_path]); the re-linked
+                                                                  list with priority / flag word per node ([pfile]:
+                                                                  path, default position, priority, flags),
+     pack_files: one pack_file per node of the sorted list      = [pack_list] + FlagModel.tool_pack: node k of the list is
+       in list order, flags from the node (+ -T)                  fid k of C08's block processor model,
+   with the tree coming from the add operations of a description file ([pack_ops]: ImgPost.Bridge.run_adds) or from
+   scan_directory ([pack_dir]: ImgScan.PackModel.scan_post).  [host name] = the bytes of the file pack_file opens.
+   Hypotheses are about the INPUT: the added paths consist of clean components (not empty, no '/', not "." / ".." -
+   what fstree_add_generic's callers pass); that fstree_get_path output canonicalises and that distinct nodes have
+   distinct canonical paths (the hypotheses of first_match_wins) are proved from that.
+   Tie: props/C17/orderleg.py (extracted pack_dir vs. the data offsets of real gensquashfs -S images). *)
+From SqfsV Require C11.FstreeModel C11.PostModel C11.ScanModel ImgPost.Bridge ImgScan.ScanLinks ImgScan.PackModel.
+From SqfsV Require Import C17.OrderModel C17.OrderPaths C17.OrderTree C17.OrderProofs C17.OrderWitness.
+
+(* ---- the hypotheses of first_match_wins hold for the file list of every tree ---------------------- *)
+(* canonicalize_name(fstree_get_path(node)) never fails and yields the '/'-joined components: what pack_files
+   prints and opens, and what the lines of the sort file are matched against *)
+Theorem node_path_canonicalises : forall p : FstreeModel.path,
+  ScanLinks.cleanp p -> C18.CanonModel.canon_result (get_path p) = Some (FstreeModel.join_slash p).
+Proof. exact canon_get_path. Qed.
+Print Assumptions node_path_canonicalises.
+
+(* fs->files of a tree built from clean paths: pairwise distinct nodes, clean components
+   ([files_ok pp] = NoDup (pp_files pp) /\ Forall cleanp (pp_files pp)) *)
+Theorem file_list_distinct_clean : forall d ops fs pp,
+  ops_clean ops -> Bridge.run_adds d (FstreeModel.fs_init d) ops = Some fs ->
+  PostModel.post_process fs = PostModel.POk pp -> files_ok pp.
+Proof. exact ops_files_ok. Qed.
+Print Assumptions file_list_distinct_clean.
+
+(* the same for a scanned directory whose names are clean and distinct per directory ("." / ".." entries allowed) *)
+Theorem file_list_distinct_clean_scanned : forall scan_fnmatch d cfg,
+  ScanLinks.cleanp (ScanModel.c_prefix cfg) ->
+  forall (sorted : bool) (h : ScanModel.hnode) pp,
+  ScanLinks.hok_rootb (if sorted then ScanModel.canon h else h) = true ->
+  PackModel.scan_post scan_fnmatch d cfg sorted h (FstreeModel.fs_init d) = Some (PostModel.POk pp) -> files_ok pp.
+Proof. exact scan_files_ok. Qed.
+Print Assumptions file_list_distinct_clean_scanned.
+
+(* ---- (1) the packing order ------------------------------------------------------------------------ *)
+(* [annot_list fnmatch ds files]: the default-order list, node k with its path p, default position k and the
+   priority / flag word of the FIRST line of ds that matches the canonical path join_slash p ((0, 0) if none):
+   [assigned_to].  [pf_before a b]: priority a < priority b, or equal priorities and a earlier in default order.
+   For every match oracle, both values of the F08 switch, every list of distinct clean paths and every sort file:
+   if every line parses, the list pack_files iterates is a permutation of the annotated default list that is sorted
+   by pf_before - ascending priority, ties in default order; a malformed line makes fstree_sort_files fail *)
+Theorem pack_order_is_stable_sort_of_first_match :
+  forall (fnmatch : list N -> list N -> bool -> bool) (t : bool) (files : list FstreeModel.path) (text : list N),
+  NoDup files -> Forall ScanLinks.cleanp files ->
+  match parse_all t (get_lines text) with
+  | Some ds =>
+      exists order, sort_stage fnmatch t (Some text) files = Some order /\
+                    Permutation order (annot_list fnmatch ds files) /\
+                    StronglySorted pf_before order
+  | None => sort_stage fnmatch t (Some text) files = None
+  end.
+Proof. exact sort_stage_spec. Qed.
+Print Assumptions pack_order_is_stable_sort_of_first_match.
+
+(* [annot_list] / [assigned_to] spelled out *)
+Theorem annot_list_is_first_match : forall fnmatch ds files k f,
+  nth_error (annot_list fnmatch ds files) k = Some f ->
+  exists p, nth_error files k = Some p /\ pf_path f = p /\ pf_idx f = N.of_nat k /\
+            (pf_prio f, pf_flags f) =
+            match find (fun d => line_matches fnmatch d (FstreeModel.join_slash p)) ds with
+            | Some d => (d_prio d, d_flags d)
+            | None => (0%Z, 0%N)
+            end.
+Proof. exact annot_list_first_match. Qed.
+Print Assumptions annot_list_is_first_match.
+
+(* ... and nothing else is a correct answer *)
+Theorem pack_order_unique :
+  forall (fnmatch : list N -> list N -> bool -> bool) (t : bool) (files : list FstreeModel.path) (text : list N)
+         (ds : list directive) (order other : list pfile),
+  sort_stage fnmatch t (Some text) files = Some order ->
+  NoDup files -> Forall ScanLinks.cleanp files -> parse_all t (get_lines text) = Some ds ->
+  Permutation other (annot_list fnmatch ds files) -> StronglySorted pf_before other -> other = order.
+Proof. exact sort_stage_unique. Qed.
+Print Assumptions pack_order_unique.
+
+(* a sort file without a directive (empty, comments only) leaves the list exactly as without -S *)
+Theorem sort_file_without_directives_is_default :
+  forall (fnmatch : list N -> list N -> bool -> bool) (t : bool) (files : list FstreeModel.path) (text : list N),
+  NoDup files -> Forall ScanLinks.cleanp files -> parse_all t (get_lines text) = Some [] ->
+  sort_stage fnmatch t (Some text) files = sort_stage fnmatch t None files.
+Proof. exact sort_stage_no_directive. Qed.
+Print Assumptions sort_file_without_directives_is_default.
+
+(* ---- layout_follows_sort_file ---------------------------------------------------------------------- *)
+(* gensquashfs -F description -S sortfile [-T], from the add operations and the TEXT of the sort file to the bytes:
+   if every line parses the run succeeds with a packing order [order] and a final block processor state [st] with
+   (1) order = the annotated default list sorted by (priority, default position);
+   (2) for two files i < j of that order that both leave bytes in the data area ([stored_bytes]: the blocks as stored,
+       for the flag word the sort file gave the file, with -T applied): file j starts at or behind the end of file i,
+       or the sort file did not give it dont_deduplicate and it starts inside what was already written (the block
+       writer found an identical run: share_only_identical_run);
+   (3) every file reads back byte-exact under its fid, the bytes in front of the data area are untouched;
+   if some line is malformed gensquashfs fails in fstree_sort_files, before anything is packed. *)
+Theorem layout_follows_sort_file :
+  forall (hashf : list N -> N) (compress : list N -> option (list N))
+         (uncompress : list N -> nat -> option (list N)) (bs half : nat),
+  (forall b c, compress b = Some c -> length c < length b /\ forall n, length b <= n -> uncompress c n = Some b) ->
+  0 < bs -> (N.of_nat bs <= c_SQFS_MAX_BLOCK_SIZE)%N -> 0 < half ->
+  forall (no_tail : bool) (file0 : list N) (sched : list nat) (fnmatch : list N -> list N -> bool -> bool)
+         (t : bool) (host : list N -> list N) (d : FstreeModel.fsdefaults) (ops : list Bridge.op)
+         (fs : FstreeModel.fstree) (pp : PostModel.ppout) (text : list N),
+  ops_clean ops ->
+  Bridge.run_adds d (FstreeModel.fs_init d) ops = Some fs ->
+  PostModel.post_process fs = PostModel.POk pp ->
+  match parse_all t (get_lines text) with
+  | Some ds =>
+      exists (order : list pfile) (st : proc),
+        pack_ops fnmatch t hashf compress uncompress bs half no_tail file0 host sched d ops (Some text) = ODone order st /\
+        let contents := node_contents host pp in
+        Permutation order (annot_list fnmatch ds (PostModel.pp_files pp)) /\
+        StronglySorted pf_before order /\
+        (forall i j fi fj, i < j -> nth_error order i = Some fi -> nth_error order j = Some fj ->
+           stored_bytes hashf compress bs no_tail contents fi <> [] ->
+           stored_bytes hashf compress bs no_tail contents fj <> [] ->
+           p_start st i + length (stored_bytes hashf compress bs no_tail contents fi) <= p_start st j \/
+           (FlagModel.has_bit (pf_flags fj) c_SQFS_BLK_DONT_DEDUPLICATE = false /\
+            p_start st j < length (w_file (p_wr st)))) /\
+        (forall fid f, nth_error order fid = Some f ->
+           read_back uncompress bs st fid (length (contents (pf_path f))) = Some (contents (pf_path f))) /\
+        firstn (length file0) (w_file (p_wr st)) = file0
+  | None =>
+      pack_ops fnmatch t hashf compress uncompress bs half no_tail file0 host sched d ops (Some text) = OSortErr
+  end.
+Proof. exact layout_follows_sort_file_ops. Qed.
+Print Assumptions layout_follows_sort_file.
+
+(* the same for gensquashfs -D directory -S sortfile ([layout_ok ... pp ds order st] = the five clauses above) *)
+Theorem layout_follows_sort_file_scanned :
+  forall (hashf : list N -> N) (compress : list N -> option (list N))
+         (uncompress : list N -> nat -> option (list N)) (bs half : nat),
+  (forall b c, compress b = Some c -> length c < length b /\ forall n, length b <= n -> uncompress c n = Some b) ->
+  0 < bs -> (N.of_nat bs <= c_SQFS_MAX_BLOCK_SIZE)%N -> 0 < half ->
+  forall (no_tail : bool) (file0 : list N) (sched : list nat) (fnmatch : list N -> list N -> bool -> bool)
+         (t : bool) (host : list N -> list N) (scan_fnmatch : list N -> list N -> bool -> bool)
+         (d : FstreeModel.fsdefaults) (cfg : ScanModel.scfg) (sorted : bool) (h : ScanModel.hnode)
+         (pp : PostModel.ppout) (text : list N),
+  ScanLinks.cleanp (ScanModel.c_prefix cfg) ->
+  ScanLinks.hok_rootb (if sorted then ScanModel.canon h else h) = true ->
+  PackModel.scan_post scan_fnmatch d cfg sorted h (FstreeModel.fs_init d) = Some (PostModel.POk pp) ->
+  match parse_all t (get_lines text) with
+  | Some ds =>
+      exists (order : list pfile) (st : proc),
+        pack_dir fnmatch t hashf compress uncompress bs half no_tail file0 host sched scan_fnmatch d cfg sorted h (Some text)
+        = ODone order st /\
+        layout_ok hashf compress uncompress bs no_tail file0 fnmatch host pp ds order st
+  | None =>
+      pack_dir fnmatch t hashf compress uncompress bs half no_tail file0 host sched scan_fnmatch d cfg sorted h (Some text)
+      = OSortErr
+  end.
+Proof. exact layout_follows_sort_file_dir. Qed.
+Print Assumptions layout_follows_sort_file_scanned.
+
+(* ... and for any post-processed tree whose file list consists of distinct clean paths *)
+Theorem layout_follows_sort_file_tree :
+  forall (hashf : list N -> N) (compress : list N -> option (list N))
+         (uncompress : list N -> nat -> option (list N)) (bs half : nat),
+  (forall b c, compress b = Some c -> length c < length b /\ forall n, length b <= n -> uncompress c n = Some b) ->
+  0 < bs -> (N.of_nat bs <= c_SQFS_MAX_BLOCK_SIZE)%N -> 0 < half ->
+  forall (no_tail : bool) (file0 : list N) (sched : list nat) (fnmatch : list N -> list N -> bool -> bool)
+         (t : bool) (host : list N -> list N) (pp : PostModel.ppout) (text : list N),
+  files_ok pp ->
+  match parse_all t (get_lines text) with
+  | Some ds =>
+      exists (order : list pfile) (st : proc),
+        pack_sorted fnmatch t hashf compress uncompress bs half no_tail file0 host sched pp (Some text) = ODone order st /\
+        layout_ok hashf compress uncompress bs no_tail file0 fnmatch host pp ds order st
+  | None => pack_sorted fnmatch t hashf compress uncompress bs half no_tail file0 host sched pp (Some text) = OSortErr
+  end.
+Proof. exact layout_follows_sort_file_pp. Qed.
+Print Assumptions layout_follows_sort_file_tree.
+
+(* without -S: the default order itself, every node with priority 0 and no flag *)
+Theorem layout_without_sort_file :
+  forall (hashf : list N -> N) (compress : list N -> option (list N))
+         (uncompress : list N -> nat -> option (list N)) (bs half : nat),
+  (forall b c, compress b = Some c -> length c < length b /\ forall n, length b <= n -> uncompress c n = Some b) ->
+  0 < bs -> (N.of_nat bs <= c_SQFS_MAX_BLOCK_SIZE)%N -> 0 < half ->
+  forall (no_tail : bool) (file0 : list N) (sched : list nat) (fnmatch : list N -> list N -> bool -> bool)
+         (t : bool) (host : list N -> list N) (pp : PostModel.ppout),
+  files_ok pp ->
+  exists (order : list pfile) (st : proc),
+    pack_sorted fnmatch t hashf compress uncompress bs half no_tail file0 host sched pp None = ODone order st /\
+    layout_ok hashf compress uncompress bs no_tail file0 fnmatch host pp [] order st /\
+    order = annot_list fnmatch [] (PostModel.pp_files pp).
+Proof. exact layout_default_pp. Qed.
+Print Assumptions layout_without_sort_file.
+
+(* the headline in terms of the nodes: of two files of the tree, the one the directives put first (lower priority, or
+   the same priority and earlier in default order) has the smaller fid, and - if both store a block - lies first in
+   the data area unless the later one was deduplicated (allowed for that file) *)
+Theorem data_offsets_follow_priority :
+  forall (hashf : list N -> N) (compress : list N -> option (list N))
+         (uncompress : list N -> nat -> option (list N)) (bs : nat) (no_tail : bool) (file0 : list N)
+         (fnmatch : list N -> list N -> bool -> bool) (host : list N -> list N)
+         (pp : PostModel.ppout) (ds : list directive) (order : list pfile) (st : proc) (fa fb : pfile),
+  files_ok pp ->
+  layout_ok hashf compress uncompress bs no_tail file0 fnmatch host pp ds order st ->
+  In fa order -> In fb order -> pf_before fa fb ->
+  exists i j : nat,
+    fid_of order (pf_path fa) = Some i /\ fid_of order (pf_path fb) = Some j /\ i < j /\
+    (stored_bytes hashf compress bs no_tail (node_contents host pp) fa <> [] ->
+     stored_bytes hashf compress bs no_tail (node_contents host pp) fb <> [] ->
+     p_start st i + length (stored_bytes hashf compress bs no_tail (node_contents host pp) fa) <= p_start st j \/
+     (FlagModel.has_bit (pf_flags fb) c_SQFS_BLK_DONT_DEDUPLICATE = false /\
+      p_start st j < length (w_file (p_wr st)))).
+Proof. exact layout_by_priority. Qed.
+Print Assumptions data_offsets_follow_priority.
+
+(* ---- (3) none of this changes the tree or the contents read back ------------------------------------ *)
+(* every file of the tree is packed exactly once, under the fid that is its position in the packing order, with the
+   priority and flag word of its first matching line, and reads back byte-exact - whatever the sort file says
+   (composition with flags_do_not_change_content) *)
+Theorem sort_file_keeps_contents :
+  forall (hashf : list N -> N) (compress : list N -> option (list N))
+         (uncompress : list N -> nat -> option (list N)) (bs : nat) (no_tail : bool) (file0 : list N)
+         (fnmatch : list N -> list N -> bool -> bool) (host : list N -> list N)
+         (pp : PostModel.ppout) (ds : list directive) (order : list pfile) (st : proc) (p : FstreeModel.path),
+  files_ok pp ->
+  layout_ok hashf compress uncompress bs no_tail file0 fnmatch host pp ds order st ->
+  In p (PostModel.pp_files pp) ->
+  exists fid k : nat,
+    fid_of order p = Some fid /\ nth_error (PostModel.pp_files pp) k = Some p /\
+    nth_error order fid = Some (annot fnmatch ds k p) /\
+    read_back uncompress bs st fid (length (node_contents host pp p)) = Some (node_contents host pp p).
+Proof. exact layout_covers. Qed.
+Print Assumptions sort_file_keeps_contents.
+
+(* the serialized tree: sqfs_serialize_fstree reads fs->inodes ([pp_inodes pp]: the inode numbers) and the tree, never
+   fs->files or the priority / flags fields - the model of fstree_sort_files does not even return them; the only part
+   of the serializer's input ([Bridge.to_img fb xa pp]) that depends on the packing run are the file inodes [fb] the
+   block processor filled in (block start, size words, fragment reference).  With those erased ([shape_node]) the
+   input is the same for every packing order: same inode numbers, names, modes, owners, link counts, xattr indices *)
+Theorem tree_unchanged_by_sort_file :
+  forall (fb fb' : FstreeModel.path -> InodeModel.ibody) (xa : FstreeModel.path -> N) (pp : PostModel.ppout),
+  map shape_node (Bridge.to_img fb xa pp) = map shape_node (Bridge.to_img fb' xa pp).
+Proof. exact tree_shape_order_free. Qed.
+Print Assumptions tree_unchanged_by_sort_file.
+
+(* ---- non-vacuity: five files, a glob line, a negative priority, a tie, an unlisted file ------------ *)
+(* add order z, bin/ls, lib/x, a, bin/cp; default order a, bin/cp, bin/ls, lib/x, z; sort file
+     5 [glob] bin/<star> | -3 [dont_compress] z | 5 a | 1 bin/ls
+   block size 8, toy compressor, constant checksum; contents 8 + |name| distinct bytes, lib/x 3 bytes.
+   The hypotheses of layout_follows_sort_file hold ... *)
+Example ex_order_hyps :
+  ops_clean ex_ops /\
+  parse_all true (get_lines ex_sortfile) = Some ex_ds /\
+  exists fs pp, Bridge.run_adds ex_d (FstreeModel.fs_init ex_d) ex_ops = Some fs /\
+                PostModel.post_process fs = PostModel.POk pp /\
+                PostModel.pp_files pp = [[n_a]; [n_bin; n_cp]; [n_bin; n_ls]; [n_lib; n_x]; [n_z]].
+Proof. exact ex_hyps. Qed.
+
+(* ... and the run packs z (-3, dont_compress) first, then the unlisted lib/x (0; 3 bytes: a tail end only, it stores no
+   block), then a, bin/cp, bin/ls (all 5: the tie keeps the default order; the later exact line for bin/ls lost against
+   the glob).  Block starts 0, -, 8, 16, 29: ascending along the order; fragment block 0 was written at 24 *)
+Example ex_order_run :
+  match ex_run (Some ex_sortfile) with
+  | ODone order st =>
+      map (fun f => (pf_path f, pf_idx f, pf_prio f, pf_flags f)) order =
+        [([n_z], 4, (-3)%Z, 1); ([n_lib; n_x], 3, 0%Z, 0); ([n_a], 0, 5%Z, 0);
+         ([n_bin; n_cp], 1, 5%Z, 0); ([n_bin; n_ls], 2, 5%Z, 0)]%N /\
+      map (fun k => (p_start st k, p_nwords st k)) (seq 0 5) = [(0, 1); (0, 0); (8, 1); (16, 1); (29, 1)] /\
+      p_ftab st 0 = (24, sw_of 5 false) /\
+      length (w_file (p_wr st)) = 49 /\
+      p_size st 0 0 = Some (sw_of 8 false)
+  | _ => False
+  end.
+Proof. exact ex_sorted_run. Qed.
+
+(* the same tree without -S: default order, other offsets ... *)
+Example ex_order_default :
+  match ex_run None with
+  | ODone order st =>
+      map (fun f => (pf_path f, pf_idx f, pf_prio f, pf_flags f)) order =
+        [([n_a], 0, 0%Z, 0); ([n_bin; n_cp], 1, 0%Z, 0); ([n_bin; n_ls], 2, 0%Z, 0);
+         ([n_lib; n_x], 3, 0%Z, 0); ([n_z], 4, 0%Z, 0)]%N /\
+      map (fun k => (p_start st k, p_nwords st k)) (seq 0 5) = [(0, 1); (8, 1); (16, 1); (0, 0); (37, 1)]
+  | _ => False
+  end.
+Proof. exact ex_default_run. Qed.
+
+(* ... and both runs read back the same bytes for every path *)
+Example ex_order_contents :
+  match ex_run (Some ex_sortfile), ex_run None with
+  | ODone o1 s1, ODone o0 s0 =>
+      forallb (fun p =>
+        match fid_of o1 p, fid_of o0 p with
+        | Some i, Some j =>
+            match read_back toy_uncompress 8 s1 i (length (ex_host (FstreeModel.join_slash p))),
+                  read_back toy_uncompress 8 s0 j (length (ex_host (FstreeModel.join_slash p))) with
+            | Some a, Some b => C18.CanonModel.list_N_eqb a (ex_host (FstreeModel.join_slash p)) &&
+                                C18.CanonModel.list_N_eqb b (ex_host (FstreeModel.join_slash p))
+            | _, _ => false
+            end
+        | _, _ => false
+        end) [[n_a]; [n_bin; n_cp]; [n_bin; n_ls]; [n_lib; n_x]; [n_z]] = true
+  | _, _ => False
+  end.
+Proof. exact ex_contents_unchanged. Qed.
+
+(* a malformed line (unknown flag): the run ends in fstree_sort_files *)
+Example ex_order_malformed :
+  pack_ops star_fnmatch true const_hash toy_compress toy_uncompress 8 4096 false [] ex_host [] ex_d ex_ops
+           (Some [53; 32; 91; 102; 111; 111; 93; 32; 97; 10]%N) = OSortErr.
+Proof. exact ex_malformed_run. Qed.
+
+(* fstree_get_path and its canonical form for the node bin/ls *)
+Example ex_node_path :
+  get_path [n_bin; n_ls] = [47; 98; 105; 110; 47; 108; 115]%N /\
+  C18.CanonModel.canon_result (get_path [n_bin; n_ls]) = Some [98; 105; 110; 47; 108; 115]%N.
+Proof. exact ex_canon_path. Qed.
+
+(* the extracted functions of the tool-level tie, [order_ops] / [order_dir] (the run up to and including
+   fstree_sort_files), ARE the order component of the packing run; in particular the data path never fails *)
+Theorem run_order_is_order_ops :
+  forall (hashf : list N -> N) (compress : list N -> option (list N))
+         (uncompress : list N -> nat -> option (list N)) (bs half : nat),
+  (forall b c, compress b = Some c -> length c < length b /\ forall n, length b <= n -> uncompress c n = Some b) ->
+  0 < bs -> (N.of_nat bs <= c_SQFS_MAX_BLOCK_SIZE)%N -> 0 < half ->
+  forall (no_tail : bool) (file0 : list N) (sched : list nat) (fnmatch : list N -> list N -> bool -> bool)
+         (t : bool) (host : list N -> list N) d ops sf,
+  order_of_run (pack_ops fnmatch t hashf compress uncompress bs half no_tail file0 host sched d ops sf)
+  = Some (order_ops fnmatch t d ops sf).
+Proof. exact pack_ops_order. Qed.
+Print Assumptions run_order_is_order_ops.
+
+Theorem run_order_is_order_dir :
+  forall (hashf : list N -> N) (compress : list N -> option (list N))
+         (uncompress : list N -> nat -> option (list N)) (bs half : nat),
+  (forall b c, compress b = Some c -> length c < length b /\ forall n, length b <= n -> uncompress c n = Some b) ->
+  0 < bs -> (N.of_nat bs <= c_SQFS_MAX_BLOCK_SIZE)%N -> 0 < half ->
+  forall (no_tail : bool) (file0 : list N) (sched : list nat) (fnmatch : list N -> list N -> bool -> bool)
+         (t : bool) (host : list N -> list N) scan_fnmatch d cfg (sorted : bool) (h : ScanModel.hnode) sf,
+  order_of_run (pack_dir fnmatch t hashf compress uncompress bs half no_tail file0 host sched scan_fnmatch d cfg sorted h sf)
+  = Some (order_dir fnmatch t scan_fnmatch d cfg sorted h sf).
+Proof. exact pack_dir_order. Qed.
+Print Assumptions run_order_is_order_dir.
